@@ -14,6 +14,7 @@
    which is trivial.  The no-mutation clause is checked by the harness's
    snapshot monitor on the real code (a test, not a proof). *)
 From Koreo Require Import Json Overlay Overlay_proofs.
+From Koreo Require ResourceFn FnTestRun CrossModel_proofs.
 Local Open Scope list_scope.
 Local Open Scope nat_scope.
 
@@ -224,6 +225,23 @@ Proof.
   split; [repeat constructor|]. eexists. split; [reflexivity|]. vm_compute. reflexivity.
 Qed.
 
+(* ---- the other properties' models of the same code agree with this one ----
+   functions._deep_overlay is also modelled as ResourceFn.merge_val (C06, C07,
+   C09) and FnTestRun.deep_overlay (C18); evaluation._overlay_applier over an
+   evaluated overlay document is also modelled as ResourceFn.overlay_doc.  They
+   compute exactly the merges characterised above, so the statements of this
+   file are statements about the ResourceFunction model as well. *)
+Theorem C12_models_of_deep_overlay_agree : forall om rkvs,
+  ResourceFn.merge_val (JMap rkvs) (JMap om) = JMap (deep_overlay om rkvs) /\
+  FnTestRun.deep_overlay (JMap rkvs) (JMap om) = JMap (deep_overlay om rkvs).
+Proof. exact CrossModel_proofs.deep_overlay_three_models_agree. Qed.
+
+Theorem C12_resourcefn_overlay_is_merge_doc : forall d,
+  CrossModel_proofs.odoc_wf d = true -> forall base, wf (JMap base) = true ->
+  ResourceFn.overlay_doc base d = merge_doc (CrossModel_proofs.conv d) (JMap base).
+Proof. exact CrossModel_proofs.overlay_doc_is_merge_doc. Qed.
+
+
 Print Assumptions C12_leaf_replaces.
 Print Assumptions C12_what_is_a_leaf.
 Print Assumptions C12_maps_merge_key_by_key.
@@ -243,3 +261,5 @@ Print Assumptions C12_step.
 Print Assumptions C12_create_is_merge.
 Print Assumptions C12_eval_deterministic.
 Print Assumptions C12_no_raise.
+Print Assumptions C12_models_of_deep_overlay_agree.
+Print Assumptions C12_resourcefn_overlay_is_merge_doc.
